@@ -715,6 +715,12 @@ impl<const N: usize> World<N> {
                     Some(c) => c.descs.len(),
                     None => if self.cfg.indirect { 1 } else { n },
                 };
+                // C03: whatever form the driver chose for the chain, it cannot have had the
+                // descriptors for it if it placed the buffers in the ring itself and fewer
+                // descriptors were free than the request has buffers.
+                if check && chain.as_ref().map(|c| c.indirect.is_none()).unwrap_or(!self.cfg.indirect) && held + n > N {
+                    viol("C03", "add-not-refused", format!("add({},{}) was accepted and placed directly in the ring with {} of {} descriptors held: {} descriptors were free for {} buffers", ni, no, held, N, N - held.min(N), n));
+                }
                 let chain = chain.unwrap_or(Chain { head: token, descs: vec![], elems: vec![], indirect: None });
                 self.outs.push(Out { token, ins: std::mem::take(&mut ins), outs: std::mem::take(&mut outs), pos, chain, completed: None, held: heldn });
                 self.inflight.push(token);
@@ -799,6 +805,21 @@ impl<const N: usize> World<N> {
         };
         crate::dev::set_notify_handler(None);
         crate::mmio::set_spin_handler(None);
+        // The available index only ever moves forwards: whatever the helper returned, the index
+        // the device reads now may not lie before what it read earlier (or before the call).
+        let idx_before_call = self.cfg.start_off.wrapping_add(self.adds as u16);
+        if let Ok(idx_now) = self.refq.avail_idx() {
+            let seen = rq.borrow().last_avail;
+            let floor = if (seen.wrapping_sub(idx_before_call) as i16) > 0 { seen } else { idx_before_call };
+            if (idx_now.wrapping_sub(floor) as i16) < 0 {
+                if check {
+                    viol("C02", "avail-idx-moved-backwards", format!("after add_notify_wait_pop (returned {:?}) the device reads avail.idx = {}, it was {} before", res, idx_now, floor));
+                    viol("C01", "avail-idx-step", format!("add_notify_wait_pop moved the available index from {} back to {}", floor, idx_now));
+                }
+                self.dead = true;
+                return;
+            }
+        }
         // If the helper returned without the device having looked (an earlier completion was
         // already waiting, so it never waited), the device finds the new entry now.
         serve_later();
